@@ -52,7 +52,7 @@ def run(run):
     run.do_ties()
     quick = run.quick
     reqs = []
-    for _ in range(600 if quick else 20000):
+    for _ in range(run.n(600, 20000)):
         m = rng.random()
         n = rng.choice([0, 1, 1, 2, 3, 5, 9])
         R = rng.randint(-1, 29)
